@@ -15,10 +15,14 @@ class _Sentinel(object):
     """build a sentinel object for the SENTINEL singleton"""
     def __repr__(self):
         return "<SENTINEL>"
+    def __reduce__(self):
+        return 'SENTINEL' # pickle and copy the singleton by reference
 class _NoSentinel(object):
     """build a sentinel object for the NOSENTINEL singleton"""
     def __repr__(self):
         return "<NOSENTINEL>"
+    def __reduce__(self):
+        return 'NOSENTINEL' # pickle and copy the singleton by reference
 
 SENTINEL = _Sentinel()
 NOSENTINEL = _NoSentinel()
